@@ -184,6 +184,9 @@ impl<R> Archive<R> {
             .into_iter()
             .map(|v| v as usize)
             .collect();
+        if source_order.iter().any(|&index| index >= archive_chunks.len()) {
+            return Err(ArchiveError::invalid_archive("invalid chunk index"));
+        }
         Ok(Self {
             reader,
             archive_chunks,
